@@ -78,7 +78,9 @@ func (s *Sim) injectSpec(spec string, to int) {
 	a := func(k int) int { return h.Atoi(f[k]) }
 	switch f[0] {
 	case "D":
-		s.InjectDeal(to, s.AdvDeal(a(1), a(2), a(3), strings.Join(f[4:], ".")))
+		d := s.AdvDeal(a(1), a(2), a(3), strings.Join(f[4:], "."))
+		info := s.Sealed[len(s.Sealed)-1]
+		s.InjectDealInfo(to, d, info.Consistent && info.Rcpt == to)
 	case "GD", "PD":
 		src := s
 		if f[0] == "PD" {
@@ -91,7 +93,9 @@ func (s *Sim) injectSpec(spec string, to int) {
 		c := CloneDeal(d)
 		c.Index = uint32(a(3))
 		c.SessionId = s.Sid
-		s.InjectDeal(to, c)
+		// a genuine (current or earlier) deal of dealer a(1) for member a(2) is a consistent deal when it
+		// is presented to that member under that dealer's index
+		s.InjectDealInfo(to, c, a(2) == to && a(3) == a(1))
 	case "R":
 		s.InjectResp(to, s.AdvResp(a(1), a(2), f[3], f[4] == "a", f[5]))
 	case "GR", "PR":
